@@ -12,6 +12,8 @@ Line protocol of `model_C21` (strings travel as lower-case hex of their bytes, `
 * `f <off> <len> <flen>`        → FileLoader read:   `ok 0 <len> <sum>` | `err:invalidlength` | `err:io` | `err:tooshort <r> <a>`
 * `u <hex>`                     → `str::parse::<u64>`: `some <n>` | `none`
 * `L <loader> <lochex> <offhex> <lenhex> <flen|none>` → whole `Model::load*` path, see `loadAll`.
+* `c <loader> <namehex> <loc1hex> <loc2hex> <f1|none> <f2|none> <off> <len>` → two loads through one
+  loader instance (PathBuf-keyed cache), answer `<r1>;<r2>`, see `twoLoads`.
 
 The data file of length `flen` has byte `i` equal to `(i*31+7) % 251`; `<sum>` is
 `Σ (k+1)·b_k mod 1000003` over the returned bytes.
@@ -95,6 +97,48 @@ def loadAll (loader : String) (loc offS lenS : List Nat) (flen : Option Nat) (di
   | .error (.load e) => showErr e
   | .ok bs => if bs.length = dimLen then s!"ok {bs.length} {checksum bs}" else "err:shape"
 
+/-- Result of the loader-specific range step on an opened file, as `ok <len> <sum>` / error. -/
+def rangeOn (ld : Loader) (file : List Nat) (off len : Nat) : String :=
+  let viaRange (r : Except LoadErr (Nat × Nat)) : String :=
+    match r with
+    | .error e => showErr e
+    | .ok rg => match sliceOf file rg with
+      | some bs => s!"ok {bs.length} {checksum bs}"
+      | none => "panic"
+  match ld with
+  | .file => match fileRead file off len with
+    | .error e => showErr e
+    | .ok bs => s!"ok {bs.length} {checksum bs}"
+  | .mmap => viaRange (mmapRange off len file.length)
+  | .mem => viaRange (memRange off len file.length)
+
+/-- Two consecutive loads through ONE loader instance (`c` request).  `f1`/`f2`: length of
+the regular file that `File::open(dir/loc_i)` would open (`none` = the OS refuses, or for
+`MemLoader` no such key).  File/mmap loaders go through the `PathBuf`-keyed cache of the
+model (`getOrOpen`); `MemLoader` has no cache and is keyed by the raw string. -/
+def twoLoads (ld : Loader) (loc1 loc2 : List Nat) (f1 f2 : Option Nat) (off len : Nat) : String :=
+  match ld with
+  | .mem =>
+    let r (loc : List Nat) (f : Option Nat) : String :=
+      if !allowed loc then showErr .disallowed
+      else match f with
+        | none => showErr .notFound
+        | some n => rangeOn .mem (fileOf n) off len
+    r loc1 f1 ++ ";" ++ r loc2 f2
+  | _ =>
+    let (r1, cache1) : String × Cache :=
+      match getOrOpen [] (fun _ => f1.map fileOf) loc1 with
+      | .error e => (showErr e, [])
+      | .ok (file, c) => (rangeOn ld file off len, c)
+    let r2 : String :=
+      match getOrOpen cache1 (fun _ => f2.map fileOf) loc2 with
+      | .error e => showErr e
+      | .ok (file, _) => rangeOn ld file off len
+    r1 ++ ";" ++ r2
+
+def parseOptNat (s : String) : Option (Option Nat) :=
+  if s = "none" then some none else (s.toNat?).map some
+
 def handle (line : String) : String :=
   match words line with
   | ["p", h] =>
@@ -135,6 +179,12 @@ def handle (line : String) : String :=
       | some fl => loadAll loader loc o l fl dl
       | none => "bad-request"
     | _, _, _, _ => "bad-request"
+  | ["c", loader, _n, l1, l2, f1, f2, o, l] =>
+    match unhex l1, unhex l2, parseOptNat f1, parseOptNat f2, o.toNat?, l.toNat? with
+    | some l1, some l2, some f1, some f2, some o, some l =>
+      let ld : Loader := if loader = "file" then .file else if loader = "mmap" then .mmap else .mem
+      twoLoads ld l1 l2 f1 f2 o l
+    | _, _, _, _, _, _ => "bad-request"
   | _ => "bad-request"
 
 end RtenVerif.Driver.C21
